@@ -143,8 +143,9 @@ type Run struct {
 	frameItemsDone              bool
 	entryEnv                    *SpecEnv
 	entryState                  *State
-	writes                      map[string][]string // probe: heap key -> refs written (names)
-	sliceArr                    map[string]string   // slice term name -> backing array ref name (for slices built from a known allocation)
+	writes                      map[string][]string    // probe: heap key -> refs written (names)
+	usedContracts               map[*FuncContract]bool // verified (non-extern) callee contracts relied upon in this run
+	sliceArr                    map[string]string      // slice term name -> backing array ref name (for slices built from a known allocation)
 	closures                    map[string]*Closure
 	funcProv                    map[string]string     // function-valued term -> "pkgpath.Type.Field" it was loaded from
 	cellOrigin                  map[*ssa.Alloc]string // captured (heap) slice variables: allocation tag of the value last stored
